@@ -7,6 +7,7 @@ import (
 
 	"github.com/KevoDB/kevo/pkg/engine/storage"
 	"github.com/KevoDB/kevo/pkg/wal"
+	"verif/mc/explore"
 	"verif/mc/fw"
 )
 
@@ -128,23 +129,61 @@ func init() {
 	fw.Register(&fw.Check{
 		ID:    "C08",
 		Level: "model_checking",
-		Rule: "explicit-state search over engine programs {put a, del a, put b, 3-entry commit, 1-entry commit, flush, bg, reopen} up to the depth per configuration (memtable 32 MiB / 1 B / 40 B); after each program: storage_last_sequence sampled after every step never decreases (also across reopen) and is not behind the last stamp; the log directory read back in file order holds exactly the program's writes in issue order, every write stamped strictly higher than every earlier one, all entries of one batch stamped alike. Crash recoveries are covered by C02's enumeration, which applies the same stamp rule after recovery. Non-trivial = programs with >=2 steps",
+		Rule: "explicit-state search over engine programs {put a, del a, put b, 3-entry commit, 1-entry commit, flush, bg, reopen} up to the depth per configuration (memtable 32 MiB / 1 B / 40 B; wal_max_size 1 B so that every reopening starts a new log file instead of continuing the newest one); after each program: storage_last_sequence sampled after every step never decreases (also across reopen) and is not behind the last stamp; the log directory read back in file order holds exactly the program's writes in issue order, every write stamped strictly higher than every earlier one, all entries of one batch stamped alike. Concurrent part: stateless exploration (deviation bound 2 quick / 3 thorough, one less for the three-thread scenario) of 4 scenarios in which two client threads write while a flush rotates the log (explicit flush caller, or memtable size 1 B); oracle on every execution: the stamp (read back from the log) of every acknowledged write is strictly greater than the stamp of every write acknowledged before it started. Crash recoveries are covered by C02's enumeration, which applies the same stamp rule after recovery. Non-trivial = programs with >=2 steps",
 		Assumptions: []string{"the stamp of a write is read from the log, which is what replication ships"},
 		Units: func(tier string) []string {
 			var us []string
-			depth := map[string]int{"big": 6, "tiny": 5, "two": 5}
+			depth := map[string]int{"big": 6, "tiny": 5, "two": 5, "norw": 5}
 			if tier == "thorough" {
-				depth = map[string]int{"big": 7, "tiny": 6, "two": 6, "tiny2": 6, "bigN": 6}
+				depth = map[string]int{"big": 7, "tiny": 6, "two": 6, "tiny2": 6, "bigN": 6, "norw": 6}
 			}
 			for _, cfg := range sortedKeys(depth) {
 				for i := 0; i < 5; i++ { // programs start with a write
 					us = append(us, fmt.Sprintf("prog/%s/%d/%d", cfg, depth[cfg], i))
 				}
 			}
+			// concurrent part: the scenarios of C06 that write from two threads around a rotation
+			b := 2
+			if tier == "thorough" {
+				b = 3
+			}
+			for _, sc := range c08ConcScenarios() {
+				bb, n := b, 8
+				if sc.Name == "rotate-vs-puts" {
+					bb, n = b-1, 16
+				}
+				us = append(us, shardUnits(sc.Name, bb, n)...)
+			}
 			return us
 		},
-		Run:    c08Unit,
-		Replay: func(v *fw.Violation) string { b, _ := json.Marshal(v.Witness); return "re-run: kvcheck one C08 quick " + v.Unit + "\nwitness: " + string(b) },
+		Run: func(unit string, env *fw.Env) *fw.Result {
+			if strings.HasPrefix(unit, "prog/") {
+				return c08Unit(unit, env)
+			}
+			sp := parseSched(unit)
+			for _, sc := range c08ConcScenarios() {
+				if sc.Name == sp.Name {
+					return runSched("C08", sc, sp, env, 2)
+				}
+			}
+			r := fw.NewResult()
+			r.HarnessErr = "unknown unit " + unit
+			return r
+		},
+		Replay: func(v *fw.Violation) string {
+			if w, ok := v.Witness.(map[string]any); ok && w["kind"] == "schedule" {
+				return replaySched(func(n string) *explore.Scenario {
+					for _, sc := range c08ConcScenarios() {
+						if sc.Name == n {
+							return sc
+						}
+					}
+					return nil
+				}, v)
+			}
+			b, _ := json.Marshal(v.Witness)
+			return "re-run: kvcheck one C08 quick " + v.Unit + "\nwitness: " + string(b)
+		},
 		BudgetQuick: 110, BudgetThorough: 900,
 	})
 }
